@@ -106,7 +106,7 @@ func c02Run(tag string, maxLen, P, C int) {
 	if !info.bounded {
 		return
 	}
-	m, err := messageFromBytes(b, openMessageType)
+	m, err := messageFromBytes(b, verifMsgOpen)
 	if info.short || info.inconsistent || info.unknownParam {
 		verifAssert("malformed-open-not-decoded", verifAnd(err != nil, m == nil))
 		n, out := c02Notif(err)
